@@ -4,7 +4,7 @@ from __future__ import annotations
 import torch
 
 from symtrace import terms as T
-from symtrace.engine import EngineMismatch, PathAbort, UnsupportedOp
+from symtrace.engine import REPO_PREFIX, EngineMismatch, PathAbort, UnsupportedOp
 
 SIGNALS = (UnsupportedOp, EngineMismatch, T.UnsupportedTerm, T.NonFinite)
 
@@ -52,7 +52,7 @@ def explicit_unsupported(e):
     if isinstance(e, (RuntimeError, ValueError, TypeError)):
         tb = traceback.extract_tb(e.__traceback__)
         last = tb[-1] if tb else None
-        if last is not None and last.filename.startswith("/repo/linear_operator"):
+        if last is not None and last.filename.startswith(REPO_PREFIX):
             # the frame's current line is inside a multi-line `raise X(...)` statement or the raise itself
             return bool(_UNSUPPORTED_RE.search(str(e)))
     return False
